@@ -45,6 +45,7 @@ class WTable:
         self.lines = []
         self.triggers = []      # list of lists of code units
         self.tails = []         # triggers that matter at the very end of the input
+        self.tail_conts = []    # (tail, what would continue the pattern behind the end of the input)
         self.cellseqs = []      # list of lists of cells (without LOU_DOTS)
         self.features = set()
         self.cell = {}          # char -> cell
@@ -341,11 +342,18 @@ def gen(rng, want=None):
         # next repetition must stop at the end of the input - seeded change C04-B)
         for j in range(1, len(s)):
             w.tails.append(s * rng.randint(1, 3) + s[:j])
+            w.tail_conts.append((s * 2 + s[:j], s[j:] + s + s))
     if feat("repword", 0.3):
         s = _word(rng, w, 1, 2, w.puncts)
         L.append("repword %s %s" % (chs(s), cells_str(_cells(rng, w, lo=1, hi=4))))
         x = _word(rng, w, 1, 3)
         w.triggers.append(x + s + x + (s + x if rng.random() < 0.5 else []))
+        # at the very END of the input: the word, the separator, the word again, the separator and the BEGINNING of one
+        # more repetition - the comparison with the next repetition must stop at the end of the input (seeded change C04-G)
+        x2 = _word(rng, w, 2, 4)
+        for j in range(1, len(x2)):
+            w.tails.append(x2 + s + x2 + s + x2[:j])
+            w.tail_conts.append((x2 + s + x2 + s + x2[:j], x2[j:] + s + x2))
         w.triggers.append(_word(rng, w, 1, 2) + x + s + x)
     if feat("rependword", 0.3):
         s = _word(rng, w, 1, 2, w.puncts)
